@@ -197,6 +197,39 @@ example : conflict exW exR = true := by decide
     the discipline is not vacuous. -/
 theorem unlocked_rejected : raceFree [exW, exU] = false := by decide
 
+/-- … and such a table really has a racy execution in the model: two goroutines performing the unlocked write, nothing
+    else — well formed, respects the table, and the two writes are not ordered by happens-before.  The discipline is
+    sharp: what it rejects here is a race, not an artefact. -/
+def racyTrace : List Ev := [.acc 1 exU, .acc 2 exU]
+
+theorem racyTrace_quiet : Quiet racyTrace := by
+  intro i e h
+  have : e = .acc 1 exU ∨ e = .acc 2 exU := by
+    match i, h with
+    | 0, h => left; simpa [racyTrace] using h.symm
+    | 1, h => right; simpa [racyTrace] using h.symm
+    | n + 2, h => simp [racyTrace] at h
+  rcases this with rfl | rfl <;>
+    exact ⟨(fun _ _ _ h => by cases h), (fun _ _ h => by cases h), (fun _ _ h => by cases h)⟩
+
+theorem unlocked_pair_races : WF racyTrace ∧ Respects [exU] racyTrace ∧ Race racyTrace := by
+  refine ⟨⟨_, rfl⟩, ?_, ?_⟩
+  · intro i t a h
+    have : a = exU := by
+      match i, h with
+      | 0, h => have := h; simp [racyTrace] at this; exact this.2.symm
+      | 1, h => have := h; simp [racyTrace] at this; exact this.2.symm
+      | n + 2, h => simp [racyTrace] at h
+    subst this
+    exact ⟨List.mem_singleton.2 rfl, fun h hh => absurd hh List.not_mem_nil⟩
+  · refine ⟨0, 1, 1, 2, exU, exU, by decide, rfl, rfl, by decide, by decide, ?_⟩
+    intro hb
+    obtain ⟨a, b, ha, hb', hab⟩ := hb_same_tid_of_quiet racyTrace_quiet hb
+    have ea : a = .acc 1 exU := by simpa [racyTrace] using ha.symm
+    have eb : b = .acc 2 exU := by simpa [racyTrace] using hb'.symm
+    subst ea; subst eb
+    exact absurd hab (by decide)
+
 /-- shared/shared does not protect a write: two RLock holders, one of them writing, is rejected -/
 theorem shared_shared_rejected :
     raceFree [{ exW with locks := [⟨7, .shared⟩] }, exR] = false := by decide
